@@ -378,6 +378,96 @@ theorem get_remove_ne (m : RuleMap) (k k' : CfiReg) (h : k ≠ k') : (m.remove k
       · rw [List.find?_cons_of_neg (by simp [hk]), List.find?_cons_of_neg (by simp [hk])]
         exact ih
 
+theorem get_insert (m : RuleMap) (r k : CfiReg) (e : Expr) :
+    (m.insert r e).get k = if k = r then some e else m.get k := by
+  by_cases h : k = r
+  · subst h; simp [RuleMap.insert, RuleMap.get]
+  · have h' : ¬ r = k := fun e => h e.symm
+    have := get_remove_ne m k r h
+    simp only [RuleMap.remove, RuleMap.get] at this
+    simp only [RuleMap.insert, RuleMap.get, h, if_false]
+    rw [List.find?_cons_of_neg (by simp [h'])]
+    exact this
+
+/-- overlay of a line's own rules over the rules collected so far -/
+def overlay (own out : RuleMap) (k : CfiReg) : Option Expr :=
+  match own.get k with
+  | some e => some e
+  | none => out.get k
+
+/-- `parse_cfi_exprs` into a non-empty map = its own rules laid over the map: success does not
+    depend on the map, and every register the line defines overrides the earlier rule. -/
+theorem parseLoop_overlay (toks : List Bytes) :
+    ∀ (cur : Option CfiReg) (expr : Expr) (out : RuleMap),
+      match parseLoop toks cur expr out, parseLoop toks cur expr [] with
+      | some m', some own => ∀ k, m'.get k = overlay own out k
+      | none, none => True
+      | _, _ => False := by
+  induction toks with
+  | nil =>
+    intro cur expr out
+    simp only [parseLoop]
+    by_cases he : expr.isEmpty = true
+    · simp [he]
+    · simp only [he, Bool.false_eq_true, if_false]
+      cases cur with
+      | none => simp
+      | some r =>
+        simp only []
+        intro k
+        simp only [overlay, get_insert]
+        by_cases hk : k = r
+        · simp [hk]
+        · simp [hk, RuleMap.get]
+  | cons tok rest ih =>
+    intro cur expr out
+    simp only [parseLoop]
+    cases stripColon tok with
+    | none =>
+      cases cur with
+      | none => simp
+      | some r => exact ih (some r) (expr ++ [tok]) out
+    | some name =>
+      cases cur with
+      | none => exact ih (some (labelOf name)) [] out
+      | some r =>
+        simp only []
+        by_cases he : expr.isEmpty = true
+        · simp [he]
+        · simp only [he, Bool.false_eq_true, if_false]
+          have ih1 := ih (some (labelOf name)) [] (out.insert r expr)
+          have ih2 := ih (some (labelOf name)) [] (RuleMap.insert [] r expr)
+          cases hA : parseLoop rest (some (labelOf name)) [] (out.insert r expr) with
+          | none =>
+            rw [hA] at ih1
+            cases hB : parseLoop rest (some (labelOf name)) [] [] with
+            | none =>
+              rw [hB] at ih2
+              cases hC : parseLoop rest (some (labelOf name)) [] (RuleMap.insert [] r expr) with
+              | none => trivial
+              | some c => rw [hC] at ih2; exact ih2
+            | some b => rw [hB] at ih1; exact False.elim ih1
+          | some a =>
+            rw [hA] at ih1
+            cases hB : parseLoop rest (some (labelOf name)) [] [] with
+            | none => rw [hB] at ih1; exact False.elim ih1
+            | some b =>
+              rw [hB] at ih1 ih2
+              cases hC : parseLoop rest (some (labelOf name)) [] (RuleMap.insert [] r expr) with
+              | none => rw [hC] at ih2; exact ih2
+              | some c =>
+                rw [hC] at ih2
+                simp only [] at ih1 ih2 ⊢
+                intro k
+                rw [ih1 k]
+                simp only [overlay, ih2 k, get_insert]
+                cases b.get k with
+                | some e => rfl
+                | none =>
+                  by_cases hk : k = r
+                  · simp [hk]
+                  · simp [hk, RuleMap.get]
+
 def otherEntry (p : Name × Expr) : CfiReg × Expr := (.other p.1, p.2)
 
 theorem remove_cfa_ra_eq (m : RuleMap) :
